@@ -282,9 +282,15 @@ def _accumulations(src, tree, stmts):
                 and _norm(src, it) == 'zip(molalities, charges)'):
             raise ExtractError('ionic_strength: accumulation does not run over `for b, z in zip(molalities, charges)`')
         return target.elts[0].id, target.elts[1].id
+    def fresh(e):
+        # `acc = E` followed by `acc += E'` mutates the object E evaluated to: harmless only if E creates a new object
+        if not isinstance(e, (ast.BinOp, ast.UnaryOp, ast.Call, ast.Constant)):
+            raise ExtractError('ionic_strength: the accumulated term `%s` is not a fresh object (the in-place `+=` would modify the '
+                               'caller\'s molality)' % _norm(src, e))
+        return e
     out = {}
     for acc, loop, e in _none_start_idiom(stmts, src):
-        out[acc] = pair(loop.target, loop.iter) + (e,)
+        out[acc] = pair(loop.target, loop.iter) + (fresh(e),)
     helpers = _sum_helpers(src, tree)
     for st in stmts:
         if (isinstance(st, ast.Assign) and len(st.targets) == 1 and isinstance(st.targets[0], ast.Name)
@@ -293,7 +299,7 @@ def _accumulations(src, tree, stmts):
                 and isinstance(st.value.args[0], (ast.GeneratorExp, ast.ListComp)) and len(st.value.args[0].generators) == 1
                 and not st.value.args[0].generators[0].ifs):
             g = st.value.args[0]
-            out[st.targets[0].id] = pair(g.generators[0].target, g.generators[0].iter) + (g.elt,)
+            out[st.targets[0].id] = pair(g.generators[0].target, g.generators[0].iter) + (fresh(g.elt),)
     return out
 
 
@@ -397,8 +403,11 @@ def generate(repo):
     parts = []
 
     def tr(py, ln, params, objects=(), b0_default=False, doc=None):
+        # `op=` is desugared by this extractor: in-place updates that are NOT pure re-bindings (target is a parameter / an alias) are
+        # reported by the translator's analysis on the ORIGINAL function and hashed into the signature record (guard opens)
+        impure = P.impure_augassigns(find_def(tree0, py))
         d = P.translate_function(src, tree, py, lean_name=ln, const_env=cenv, params=params, objects=objects,
-                                 cond_hook=_hook(b0_default))
+                                 cond_hook=_hook(b0_default), extra_skipped=impure)
         parts.append(d)
         return d
 
